@@ -195,15 +195,15 @@ theorem slot_correct (cfg : Cfg) (hb : BsGood cfg) (s : Slot) (hg : SlotGood cfg
 
 /-- the facts about index type `s` are the sound ones -/
 def slotGoodB (cfg : Cfg) : Slot → Bool
-  | .key => cfg.resortKey == .own && !cfg.typeChangeDetected
+  | .key => cfg.resortKey == .own
   | .created => cfg.resortCreated == .own && cfg.coldFilterCreated && cfg.addGuardCreated &&
-      cfg.updRefreshCreated && !cfg.typeChangeDetected
+      cfg.updRefreshCreated
   | .updated => cfg.resortUpdated == .own && cfg.coldFilterUpdated && cfg.addGuardUpdated &&
-      cfg.updRefreshUpdated && !cfg.typeChangeDetected
+      cfg.updRefreshUpdated
   | .expire => cfg.resortExpire == .own && cfg.coldFilterExpire && cfg.addGuardExpire &&
-      cfg.updRefreshExpireOnFlag && !cfg.typeChangeDetected
+      cfg.updRefreshExpireOnFlag
   | .value _ => !cfg.valueShared && cfg.resortValue == .own && cfg.coldFilterValueType && cfg.addGuardValueType &&
-      cfg.updRefreshValue && !cfg.typeChangeDetected
+      cfg.updRefreshValue
 
 def bsGoodB (cfg : Cfg) : Bool :=
   cfg.bsAscFrom == .lt && cfg.bsAscTo == .lt && cfg.bsDescTo == .lt && cfg.bsDescFrom == .lt
@@ -217,33 +217,29 @@ theorem slotGood_of (cfg : Cfg) (s : Slot) (h : slotGoodB cfg s = true) : SlotGo
   | key =>
     simp only [slotGoodB, Bool.and_eq_true, beq_iff_eq, Bool.not_eq_true'] at h
     exact { phys := rfl, cold := fun _ => rfl, guard := fun _ => rfl,
-            resort := by simp [incrSort, h.1],
+            resort := by simp [incrSort, h],
             exclusive := by intro s' hs'; cases s' <;> simp_all [phys],
-            noTypeBranch := h.2,
             stable := fun o rq => Or.inr (by simp [attrEq, mergeRec]) }
   | created =>
     simp only [slotGoodB, Bool.and_eq_true, beq_iff_eq, Bool.not_eq_true'] at h
-    obtain ⟨⟨⟨⟨h1, h2⟩, h3⟩, h4⟩, h5⟩ := h
+    obtain ⟨⟨⟨h1, h2⟩, h3⟩, h4⟩ := h
     exact { phys := rfl, cold := fun _ => by simp [coldIncl, carries, h2], guard := fun _ => by simp [addGuard, carries, h3],
             resort := by simp [incrSort, h1],
             exclusive := by intro s' hs'; cases s' <;> simp_all [phys],
-            noTypeBranch := h5,
             stable := fun o rq => Or.inl (by simp [refreshes, h4]) }
   | updated =>
     simp only [slotGoodB, Bool.and_eq_true, beq_iff_eq, Bool.not_eq_true'] at h
-    obtain ⟨⟨⟨⟨h1, h2⟩, h3⟩, h4⟩, h5⟩ := h
+    obtain ⟨⟨⟨h1, h2⟩, h3⟩, h4⟩ := h
     exact { phys := rfl, cold := fun _ => by simp [coldIncl, carries, h2], guard := fun _ => by simp [addGuard, carries, h3],
             resort := by simp [incrSort, h1],
             exclusive := by intro s' hs'; cases s' <;> simp_all [phys],
-            noTypeBranch := h5,
             stable := fun o rq => Or.inl (by simp [refreshes, h4]) }
   | expire =>
     simp only [slotGoodB, Bool.and_eq_true, beq_iff_eq, Bool.not_eq_true'] at h
-    obtain ⟨⟨⟨⟨h1, h2⟩, h3⟩, h4⟩, h5⟩ := h
+    obtain ⟨⟨⟨h1, h2⟩, h3⟩, h4⟩ := h
     exact { phys := rfl, cold := fun _ => by simp [coldIncl, carries, h2], guard := fun _ => by simp [addGuard, carries, h3],
             resort := by simp [incrSort, h1],
             exclusive := by intro s' hs'; cases s' <;> simp_all [phys],
-            noTypeBranch := h5,
             stable := by
               intro o rq
               by_cases he : rq.expire = 0
@@ -251,12 +247,11 @@ theorem slotGood_of (cfg : Cfg) (s : Slot) (h : slotGoodB cfg s = true) : SlotGo
               · exact Or.inl (by simp [refreshes, h4, mergeRec, he]) }
   | value t =>
     simp only [slotGoodB, Bool.and_eq_true, beq_iff_eq, Bool.not_eq_true'] at h
-    obtain ⟨⟨⟨⟨⟨h0, h1⟩, h2⟩, h3⟩, h4⟩, h5⟩ := h
+    obtain ⟨⟨⟨⟨h0, h1⟩, h2⟩, h3⟩, h4⟩ := h
     exact { phys := by simp [phys, h0], cold := fun _ => by simp [coldIncl, carries, h2],
             guard := fun _ => by simp [addGuard, carries, h3],
             resort := by simp [incrSort, h1],
             exclusive := by intro s' hs'; cases s' <;> simp_all [phys],
-            noTypeBranch := h5,
             stable := fun o rq => Or.inl (by simp [refreshes, h4]) }
 
 /-- all facts sound -/
@@ -470,6 +465,9 @@ example : findings { repaired with bsAscFrom := .le } = ["C07-window-bounds-oper
 example : findings { repaired with bsDescTo := .le } = ["C07-window-bounds-operator"] := by decide
 example : findings { repaired with coldFilterExpire := false } = ["C07-cold-build-no-zero-filter"] := by decide
 theorem holds_repaired : Holds repaired := holds_of_good repaired (by decide)
+/-- …also when the `SetContent…` setters are repaired to raise `contentTypeChanged` (the first
+    `SaveFunction` branch becomes reachable): a Set never turns typed content into void -/
+example : goodB { repaired with typeChangeDetected := true } = true := by decide
 
 /-- non-vacuity of the partial theorem: before the fixes the key and expiration-time indexes
     satisfy it; now all four non-value index types do, the value indexes still do not -/
